@@ -50,6 +50,7 @@ type Unit struct {
 	noHoudini bool
 	inferred map[string][]string // loop → inferred invariant names (reported)
 	houdiniDead map[string]map[string]bool
+	vacChecked map[string]bool
 }
 
 type loopInfo struct {
